@@ -601,6 +601,12 @@ func (t *Dense) Zero() {
 		if err := t.zeroIter(it); err != nil {
 			panic(err)
 		}
+		if t.IsMasked() {
+			t.ResetMask()
+		}
+		// the elements of the view have been zeroed one by one: zeroing the whole
+		// storage window as well would clobber parent elements that lie between them
+		return
 	}
 	if t.IsMasked() {
 		t.ResetMask()
